@@ -326,6 +326,9 @@ impl<T> Pool<T> {
         #[cfg(deadpool_verif)]
         crate::verif::point("uadd.avail");
         self.inner.semaphore.add_permits(1);
+        // The pool may have been closed (and cleared) while the object was
+        // being added: do not keep it in a closed pool.
+        self.inner.clean_up();
     }
 
     /// Removes an [`Object`] from this [`Pool`].
